@@ -639,6 +639,7 @@ func (t *Table) IndexesDescription() ([]types.GlobalSecondaryIndexDescription, [
 	lsi := []types.LocalSecondaryIndexDescription{}
 
 	for indexName, index := range t.Indexes {
+		indexName := indexName
 		schema := index.keySchema.describe()
 		count := index.count()
 
